@@ -304,6 +304,8 @@ def gen(cls, idx, rng, tier):
                     v = rng.randint(0, hi)
                 if rng.random() < .03:
                     v = hi + 1 + rng.randrange(3)       # maybe too large
+                elif rng.random() < .01:
+                    v = -rng.randint(1, 3)              # must be rejected
                 trial = dict(assign)
                 trial[f.name] = v
                 assign = trial
@@ -508,6 +510,27 @@ def run(case, ctx):
                 continue
             km = check_query(ctx, b, sh, assign, en, call, B)
             queries.append((assign, km))
+            # a value, once given, cannot be given again on the derived
+            # bit field; unknown fields are refused; equality is by value
+            if assign:
+                k0 = sorted(assign)[0]
+                ok, r2 = call("re-assign", lambda: b(**{k0: assign[k0]}))
+                check(not ok and isinstance(r2, ValueError),
+                      "value-reassigned", "%r given twice: %r" % (k0, r2))
+                check(getattr(b, k0) == assign[k0], "attribute-value",
+                      "%r reads %r" % (k0, getattr(b, k0)))
+            ok, r3 = call("unknown field", lambda: b(no_such_field_=1))
+            check(not ok and isinstance(r3, LookupError),
+                  "unknown-field-accepted", repr(r3))
+            ok, b2 = call("again", lambda: bf(**assign))
+            check(ok and b2 == b and not (b2 != b), "equal-assignments-differ",
+                  repr(assign))
+            try:
+                b.get_mask(tag="t1", field="f1")
+                both = None
+            except TypeError as e:
+                both = e
+            check(both is not None, "tag-and-field-accepted", "")
     # collisions
     for (a1, (k1, m1)), (a2, (k2, m2)) in itertools.combinations(queries, 2):
         if a1 == a2:
